@@ -5,15 +5,31 @@ import (
 	"encoding/hex"
 	"sort"
 	"strconv"
+	"strings"
+	"sync/atomic"
 
 	"github.com/holiman/uint256"
 )
 
-// Hex encodes data: lower-case, 0x-prefixed ("0x" for empty).
-func Hex(b []byte) string { return "0x" + hex.EncodeToString(b) }
+// UpperDigits: while set, every hex string the node writes uses the digits A-F (some nodes and proxies do);
+// the values are the same.
+var UpperDigits atomic.Bool
+
+// Hex encodes data: 0x-prefixed ("0x" for empty), lower-case unless UpperDigits.
+func Hex(b []byte) string {
+	if UpperDigits.Load() {
+		return "0x" + strings.ToUpper(hex.EncodeToString(b))
+	}
+	return "0x" + hex.EncodeToString(b)
+}
 
 // HexU encodes a quantity: no leading zeros, "0x0" for zero.
-func HexU(n uint64) string { return "0x" + strconv.FormatUint(n, 16) }
+func HexU(n uint64) string {
+	if UpperDigits.Load() {
+		return "0x" + strings.ToUpper(strconv.FormatUint(n, 16))
+	}
+	return "0x" + strconv.FormatUint(n, 16)
+}
 
 func hexOrNull(b []byte) any {
 	if b == nil {
